@@ -74,6 +74,12 @@ Funcs == { N("func", "dflt", {}, << ParamD("a", "+2"), ParamD("b", "-1"), ParamD
            N("func", "dflt2", {}, << ParamD("a", "None"), ParamD("b", "True"), ParamD("c", "'s'"), ParamD("d", "0x10"), ParamD("e", "-2.5"), Res >>),
            N("func", "fun", {}, << Param("a"), Param("b"), Res >>), N("func", "_pfun", {}, << Param("a") >>), N("func", "noargs", {}, <<>>),
            N("func", "movl", {"overload"}, << Param("a"), Res >>), N("func", "mdovl", {"overload", "deco"}, << Param("a"), Res >>) }
+(* functions whose NumPy docstring names fewer results than the annotated tuple has (run with the NumPy style): two results, each
+   listed once and each with an entry of its own.  Which of the documented names they carry is C07's business: the harness projects the
+   results of these functions onto their positions in the owner's list ("?1", "?2"). *)
+ResAny(j) == N("result", IF j = 1 THEN "?1" ELSE "?2", {}, <<>>)
+DocFuncs == { N("func", "dpart", {"docpartial"}, << Param("a"), ResAny(1), ResAny(2) >>), N("func", "dpart2", {"docpartial"}, << Param("a"), Param("b"), ResAny(1), ResAny(2) >>) }
+\* (a docstring that names more results than the annotation admits is contradictory input - see Results.tla - and is not generated)
 (* the other enum classes of the standard library: the flag names the base class the enum derives from *)
 EnumB(name, n, base) == [ EnumN(name, n) EXCEPT !.flags = { "base-" \o base } ]
 Enums == { EnumN("Col", 2), EnumN("Empty", 0), EnumN("_PCol", 2) }
@@ -87,6 +93,8 @@ Modules(tier) ==
   \cup { N("module", "m", {}, << x, y >>) : x \in { u \in Unusual : u.k = "func" }, y \in { u \in Unusual : u.k = "class" } }
   \cup { N("module", "m", {}, << x, y >>) : x \in Funcs \cup Enums, y \in { c \in Classes(tier) : c.name = "Cls" /\ Len(c.ch) <= 2 } }
   \cup { N("module", "m", {}, << y, x, z >>) : x \in Funcs, z \in Enums, y \in { c \in Classes(tier) : c.name = "Cls" /\ Len(c.ch) = 1 } }
+  \cup { N("module", "m", {"numpydoc"}, << x >>) : x \in DocFuncs } \cup { N("module", "m", {"numpydoc"}, << q[1], q[2] >>) : q \in { r \in DocFuncs \X DocFuncs : r[1] # r[2] } }
+  \cup { N("module", "m", {"numpydoc"}, << ClassN("Cls", FALSE, TRUE, << x >>, "none", "none") >>) : x \in { [ f EXCEPT !.ch = << Param("self") >> \o f.ch ] : f \in DocFuncs } }
   \* a class that derives from an enum class of its own module (an enum only indirectly): it is walked like any class, members and methods
   \cup { N("module", "m", {}, << EnumN("BaseKind", 0), [ ClassN("Kind", FALSE, TRUE, ms, "none", "none") EXCEPT !.flags = {"super-userenum"} ] >>)
          : ms \in { << Method("inst") >>, << Method("inst"), Method("static") >>, << Method("property"), Method("classmethod") >> } }
@@ -158,7 +166,7 @@ RECURSIVE Inventory(_, _, _)
 \* Scenarios arrive through JSON here, where the flag sets are sequences.
 Inventory(n, oid, cid) ==
   LET id == IF n.k = "attr" /\ cid # "" THEN cid \o "/" \o n.name ELSE oid \o "/" \o n.name
-      self == { [kind |-> n.k, id |-> id, flags |-> SeqToSet(n.flags) \ {"ctor", "deco", "redefined", "chained", "deep"}] }
+      self == { [kind |-> n.k, id |-> id, flags |-> SeqToSet(n.flags) \ {"ctor", "deco", "redefined", "chained", "deep", "docpartial", "docmore"}] }
   IN self \cup UNION { Inventory(n.ch[j], id, IF n.k = "func" /\ n.name = "__init__" THEN oid ELSE "") : j \in 1..Len(n.ch) }
 ExpectedInventory(m, mid) == UNION { Inventory(m.ch[j], mid, "") : j \in 1..Len(m.ch) }
 
